@@ -144,7 +144,17 @@ func (fr *frame) instr(b *ssa.BasicBlock, in ssa.Instruction, reach Term, h Heap
 	case *ssa.Go:
 		// the spawned goroutine is verified separately; spawning has no effect on this goroutine,
 		// but may touch shared memory later: unguarded sharing is outside the model.
-		return h
+		var gargs []Val
+		var gtypes []types.Type
+		if in.Call.IsInvoke() {
+			gargs = append(gargs, fr.get(in.Call.Value))
+			gtypes = append(gtypes, in.Call.Value.Type())
+		}
+		for _, a := range in.Call.Args {
+			gargs = append(gargs, fr.get(a))
+			gtypes = append(gtypes, a.Type())
+		}
+		return fr.countCall(&in.Call, calleeName(&in.Call), gargs, gtypes, h)
 	case *ssa.Call:
 		res, nh := fr.call(b, in, &in.Call, reach, h, in)
 		if in.Type() != nil {
@@ -219,6 +229,9 @@ func (fr *frame) instr(b *ssa.BasicBlock, in ssa.Instruction, reach Term, h Heap
 		x.sc.assert(and(app("<=", lo, v.ts[0]), app("<", v.ts[0], num(int64(n)))))
 		x.sc.assert(implies(reach, x.typeFacts(in.Type(), v, h)))
 		fr.bind(in, v)
+		if in.Blocking {
+			return fr.interfere(h)
+		}
 		return h
 	case *ssa.SliceToArrayPointer:
 		xv := fr.get(in.X)
@@ -357,6 +370,7 @@ func (fr *frame) unop(b *ssa.BasicBlock, in *ssa.UnOp, reach Term, h Heap) Heap 
 		res := x.freshVal("recv", in.Type())
 		x.sc.assert(implies(reach, x.typeFacts(in.Type(), res, h)))
 		fr.bind(in, res)
+		return fr.interfere(h)
 	default:
 		x.note("unop " + in.Op.String())
 		fr.bind(in, x.freshVal("unop", in.Type()))
